@@ -571,14 +571,36 @@ func checkBasicAuth(c *Ctx, rule string) {
 		}
 		n++
 		key := fmt.Sprintf("%s:verdict#%d", name, n)
-		call, ok := v.(*ssa.Call)
-		if !ok {
+		// the verdict: the result of the comparison function, or — when that function is part of this one — a merge
+		// of constant false and ConstantTimeCompare(presented, configured) == 1
+		var call *ssa.Call
+		okCmp := false
+		alts := []ssa.Value{v}
+		if phi, isPhi := v.(*ssa.Phi); isPhi {
+			alts = phi.Edges
+		}
+		shape := true
+		for _, alt := range alts {
+			if cst, ok := alt.(*ssa.Const); ok && cst.Value != nil && cst.Value.String() == "false" {
+				continue
+			}
+			if bo, ok := alt.(*ssa.BinOp); ok && bo.Op == token.EQL && isIntConst(bo.Y, 1) {
+				if cc, ok := bo.X.(*ssa.Call); ok && calleeIs(cc, "crypto/subtle", "", "ConstantTimeCompare") && call == nil {
+					call, okCmp = cc, true
+					continue
+				}
+			}
+			if cc, ok := alt.(*ssa.Call); ok && call == nil {
+				if f := cc.Call.StaticCallee(); f != nil && trueRequiresConstantTimeCompare(f) {
+					call, okCmp = cc, true
+					continue
+				}
+			}
+			shape = false
+		}
+		if !shape || call == nil {
 			c.Fail(rule, key, p.InstrPos(r), "verdict is neither a constant nor the result of the comparison function")
 			continue
-		}
-		okCmp := false
-		if f := call.Call.StaticCallee(); f != nil {
-			okCmp = trueRequiresConstantTimeCompare(f)
 		}
 		c.Check(okCmp, rule, key+":constant-time-compare", p.InstrPos(r), "verdict = comparison that is true only when ConstantTimeCompare == 1", "verdict does not come from a constant-time comparison")
 		okF, pathF := p.MustPass(fn, r, found)
@@ -588,8 +610,14 @@ func checkBasicAuth(c *Ctx, rule string) {
 		// arguments: presented password and the table's value
 		okArgs := false
 		if len(call.Call.Args) == 2 {
-			a0 := sourcesOf(call.Call.Args[0])
-			a1 := sourcesOf(call.Call.Args[1])
+			strip := func(v ssa.Value) ssa.Value {
+				if cv, ok := v.(*ssa.Convert); ok {
+					return cv.X // []byte(s)
+				}
+				return v
+			}
+			a0 := sourcesOf(strip(call.Call.Args[0]))
+			a1 := sourcesOf(strip(call.Call.Args[1]))
 			okArgs = allSourcesMatch(a0, func(s vsource) bool { return s.Kind == "call" && strings.Contains(s.Desc, "BasicAuth#1") }) &&
 				len(a1) > 0
 			for _, s := range a1 {
